@@ -166,10 +166,17 @@ func genC15(cs *CaseSet, rng *Rng, tier string, dir string) {
 			}
 		}
 		nOps := 8 + rng.Intn(10)
+		lfProfile := h == nHist-1 // dedicated profile for the known yaml.v3 finding
+		lf := func(b []byte) []byte {
+			if lfProfile {
+				return append([]byte("\n"), b...)
+			}
+			return b
+		}
 		for k := 0; k < nOps; k++ {
 			switch r := rng.Intn(10); {
 			case r < 2: // NewUser
-				l, name, acc := pickLogin(), rng.Bytes(rng.Intn(12)), rng.Bytes(8)
+				l, name, acc := pickLogin(), lf(noLeadingLF(rng.Bytes(rng.Intn(12)))), rng.Bytes(8)
 				pf, pw := pwField()
 				fields := []hotline.Field{hotline.NewField(hotline.FieldUserLogin, obfuscate(l)), hotline.NewField(hotline.FieldUserName, name), hotline.NewField(hotline.FieldUserAccess, acc)}
 				if pf[0] == 1 {
@@ -180,7 +187,7 @@ func genC15(cs *CaseSet, rng *Rng, tier string, dir string) {
 				ops = append(ops, mkOp(1, "new-user", l, name, pf, pw, acc))
 				obs = append(obs, observe(statusOf(res, p)))
 			case r < 4: // SetUser
-				l, name, acc := pickLogin(), rng.Bytes(rng.Intn(12)), rng.Bytes(rng.Pick(8, 8, 8, 3))
+				l, name, acc := pickLogin(), lf(noLeadingLF(rng.Bytes(rng.Intn(12)))), rng.Bytes(rng.Pick(8, 8, 8, 3))
 				pf, pw := pwField()
 				fields := []hotline.Field{hotline.NewField(hotline.FieldUserLogin, obfuscate(l)), hotline.NewField(hotline.FieldUserName, name), hotline.NewField(hotline.FieldUserAccess, acc)}
 				if pf[0] == 1 {
@@ -204,7 +211,7 @@ func genC15(cs *CaseSet, rng *Rng, tier string, dir string) {
 						sawRenameOrDelete = true
 						continue
 					}
-					l, name := pickLogin(), rng.Bytes(rng.Intn(10))
+					l, name := pickLogin(), lf(noLeadingLF(rng.Bytes(rng.Intn(10))))
 					var sub []byte
 					cnt := 0
 					hd, from := []byte{0}, []byte(nil)
@@ -257,7 +264,11 @@ func genC15(cs *CaseSet, rng *Rng, tier string, dir string) {
 			}
 		}
 		env.StopDrain()
-		cs.Add(Case{Kind: "history", Ops: ops, Obs: obs, NonTrivial: sawRenameOrDelete})
+		kind := "history"
+		if lfProfile {
+			kind = "yaml-leading-newline"
+		}
+		cs.Add(Case{Kind: kind, Ops: ops, Obs: obs, NonTrivial: sawRenameOrDelete})
 	}
 }
 
